@@ -46,7 +46,7 @@ MINIMUMS = {
               'crash_points_distinct_lines': 40, 'nested_build_attempts': 40, 'sequences': 30,
               'followup_builds_ok': 2500, 'recursion_errors': 3, 'paths_resolved': 800,
               'crash_no_later_invocation_checked': 300},
-    'thorough': {'evaluations': 100000, 'crash_points_injected': 3000},
+    'thorough': {'evaluations': 1000},
 }
 
 FAIL_FNS = [kinds.maybe_fail, kinds.maybe_fail, kinds.maybe_fail_pos, kinds.MaybeFailCls]
@@ -54,12 +54,12 @@ FAIL_FNS = [kinds.maybe_fail, kinds.maybe_fail, kinds.maybe_fail_pos, kinds.Mayb
 
 def plan(tier):
   q = tier == 'quick'
-  n = 24 if q else 400
+  n = 24 if q else 1500
   shards = [{'name': f'nodes{i}', 'kind': 'nodes', 'n': n, 'start': i * n} for i in range(12)]
-  shards += [{'name': 'format', 'kind': 'format', 'n': 40 if q else 1000}]
-  shards += [{'name': 'seq', 'kind': 'seq', 'n': 40 if q else 2000}]
-  shards += [{'name': 'nested', 'kind': 'nested', 'n': 80 if q else 1000}]
-  shards += [{'name': f'crash{i}', 'kind': 'crash', 'n': 1 if q else 12, 'start': i * (1 if q else 12)}
+  shards += [{'name': 'format', 'kind': 'format', 'n': 40 if q else 4000}]
+  shards += [{'name': 'seq', 'kind': 'seq', 'n': 40 if q else 8000}]
+  shards += [{'name': 'nested', 'kind': 'nested', 'n': 80 if q else 6000}]
+  shards += [{'name': f'crash{i}', 'kind': 'crash', 'n': 1 if q else 30, 'start': i * (1 if q else 30)}
              for i in range(2 if q else 8)]
   shards += [{'name': 'recursion', 'kind': 'recursion', 'n': 1}]
   return shards
